@@ -293,6 +293,18 @@ def strat_gene(draw, tier="quick"):
     if draw(st.booleans()):
         hi = max(t["exons"][-1][1] for t in txs)
         sp["genome"] = draw(S.dna(hi + 1, hi + 3))
+        if draw(st.booleans()):
+            # an alternative initiator (or ATG) as first codon of some coding isoform, so that the translation table the protein
+            # accessors use matters (random bases give TTG / CTG there once in thirty)
+            gl = list(sp["genome"])
+            for t in txs:
+                if "cds" in t and draw(st.booleans()):
+                    cod, _ = rm.frame_walk(t["cds"], t["strand"], t["frames"])
+                    if cod:
+                        for p_, ch in zip(cod[0], draw(st.sampled_from(["TTG", "CTG", "GTG", "ATG", "ATT"]))):
+                            if 0 <= p_ < len(gl):
+                                gl[p_] = ch if t["strand"] == "+" else rm.comp_char(ch)
+            sp["genome"] = "".join(gl)
         if draw(st.integers(0, 2)) == 0:
             a = draw(st.integers(0, hi))
             sp["chunk"] = [a, draw(st.integers(a + 1, len(sp["genome"])))]
